@@ -702,6 +702,32 @@ static void op_oracle(void)
     /* times */
     struct timeval tv; gettimeofday(&tv, NULL);
     snprintf(t, sizeof t, "%ld.%06ld", (long) tv.tv_sec, (long) tv.tv_usec); ev_str(&e, t);
+    /* ancestors: kernel names of parent, grandparent, ... (own /proc parsing: comm + PPid from status) */
+    {
+        buf_t anc = {0};
+        long pid = (long) syscall(SYS_getppid);
+        int guard = 0, broken = 0;
+        while (pid > 0 && guard++ < 64) {
+            char pth[64], line[512];
+            snprintf(pth, sizeof pth, "/proc/%ld/comm", pid);
+            FILE *f = fopen(pth, "r");
+            if (!f) { broken = 1; break; }
+            size_t n = fread(line, 1, sizeof line - 1, f); fclose(f);
+            if (n && line[n - 1] == '\n') n--;
+            buf_add(&anc, line, n); buf_add(&anc, "\n", 1);
+            snprintf(pth, sizeof pth, "/proc/%ld/status", pid);
+            f = fopen(pth, "r");
+            if (!f) { broken = 1; break; }
+            long pp = -1;
+            while (fgets(line, sizeof line, f)) if (!strncmp(line, "PPid:", 5)) { pp = strtol(line + 5, NULL, 10); break; }
+            fclose(f);
+            if (pp < 0) { broken = 1; break; }
+            pid = pp;
+        }
+        ev_field(&e, anc.p ? anc.p : (unsigned char *) "", anc.len);
+        ev_int(&e, broken);
+        free(anc.p);
+    }
     ev_end(&e); ev_free(&e);
 }
 
